@@ -27,8 +27,13 @@ STAGES = ("setUp_pre", "setUp_post", "test", "tearDown_pre", "tearDown_post")
 
 # kinds a scripted op can raise
 EXC_KINDS = ("fail", "error", "skip", "xfail", "uxsuccess", "multi", "kbi", "sysexit",
-             "subfail", "subskip", "suberror", "user")
-BASE_KINDS = ("kbi", "sysexit")
+             "subfail", "subskip", "suberror", "user", "abort")
+BASE_KINDS = ("kbi", "sysexit", "abort")
+
+
+class Abort(BaseException):
+    """A project-defined exception that does not derive from Exception."""
+
 MULTI_PART_KINDS = ("fail", "error", "skip", "subfail", "suberror")
 
 DETAIL_NAMES = ("d0", "d1", "traceback", "traceback-1", "Failed expectation",
@@ -101,7 +106,7 @@ class _Gen:
         self.fixtures = {}
         self.cells = {}
         self.onexc = 0
-        self.nobjs = 2
+        self.nobjs = 3
 
     def marker(self):
         self.next_marker += 1
@@ -273,14 +278,15 @@ def gen_program(tape, cfg):
         d = t.draw("program", 16, "decorator")
         if d in (1, 2, 3, 4) and not cfg.skip_decorators:
             d = 0
+        empty = d in (1, 2, 3, 4) and t.chance("program", 1, 5, "empty-skip-reason")
         if d == 1:
-            prog["class_skip"] = "class-skip-" + g.marker()
+            prog["class_skip"] = "" if empty else "class-skip-" + g.marker()
         elif d == 2:
-            prog["method_skip"] = ["skip", "method-skip-" + g.marker()]
+            prog["method_skip"] = ["skip", "" if empty else "method-skip-" + g.marker()]
         elif d == 3:
-            prog["method_skip"] = ["skipIf", "method-skipIf-" + g.marker()]
+            prog["method_skip"] = ["skipIf", "" if empty else "method-skipIf-" + g.marker()]
         elif d == 4:
-            prog["method_skip"] = ["skipUnless", "method-skipUnless-" + g.marker()]
+            prog["method_skip"] = ["skipUnless", "" if empty else "method-skipUnless-" + g.marker()]
         elif d in (5, 6):
             prog["xfail_decorator"] = True
     if cfg.handlers and "user" in cfg.kinds:
@@ -375,6 +381,23 @@ class SlotScratch:
         self._c = value
 
 
+class PropScratch:
+    """An ordinary object (it has a __dict__): 'a' on the instance, 'b' absent, 'c' a read/write
+    property without a deleter."""
+
+    def __init__(self, i):
+        self.a = ("orig-a", i)
+        self._c = ("orig-prop-c", i)
+
+    @property
+    def c(self):
+        return self._c
+
+    @c.setter
+    def c(self, value):
+        self._c = value
+
+
 _MISSING = ("missing",)
 
 
@@ -390,7 +413,7 @@ class Env:
         self.prog = prog
         self.world = world
         self.reset_sources()
-        self.objs = [(SlotScratch(i) if i % 2 else Scratch(i)) for i in range(prog["nobjs"])]
+        self.objs = [(Scratch, SlotScratch, PropScratch)[i % 3](i) for i in range(prog["nobjs"])]
         self.obj_snap = [observe_obj(o) for o in self.objs]
         self.handler_log = []   # (seq, hid, exc marker/class)
         self.op_obs = []        # local observations of assert/expect ops
@@ -419,6 +442,8 @@ def _make_exc(kind, marker, extra=None):
         return KeyboardInterrupt(marker)
     if kind == "sysexit":
         return SystemExit(marker)
+    if kind == "abort":
+        return Abort(marker)
     if kind == "user":
         return USER_CLASSES[extra](marker)
     raise AssertionError(kind)
@@ -518,7 +543,11 @@ def run_ops(case, env, ops):
             pass
         elif what == "cleanup":
             cid = op[1]
-            case.addCleanup(_cleanup_body, case, env, cid)
+            # positional and keyword arguments both have to reach the cleanup
+            if oid % 2:
+                case.addCleanup(_cleanup_body, case, env, cid=cid)
+            else:
+                case.addCleanup(_cleanup_body, case, env, cid)
         elif what == "detail":
             name, cell = op[1], op[2]
             prev = case.getDetails().get(name)
@@ -616,7 +645,7 @@ def build_case(prog, env, run_test_with=None):
             Scripted.test_it = testtools.skipUnless(False, ms[1])(Scripted.test_it)
     if prog["xfail_decorator"]:
         Scripted.test_it = unittest.expectedFailure(Scripted.test_it)
-    if prog["class_skip"]:
+    if prog["class_skip"] is not None:
         Scripted = testtools.skip(prog["class_skip"])(Scripted)
     Scripted.__qualname__ = Scripted.__name__ = "Scripted"
     case = Scripted("test_it")
@@ -775,7 +804,7 @@ class Model:
 
     def _run(self):
         prog = self.prog
-        if prog["class_skip"]:
+        if prog["class_skip"] is not None:
             self.skip_decorated = prog["class_skip"]
             return
         if prog["method_skip"]:
